@@ -110,8 +110,8 @@ static void _rexpand_dir(List list, char *name)
         snprintf(file, sizeof(file), "%s/%s", name, dp->d_name);
         if (stat(file, &sb) < 0)
             errx("%p: can't stat %s: %m\n", file);
-        if (access(name, R_OK) < 0)
-            errx("%p: access: %s: %m\n", name);
+        if (access(file, R_OK) < 0)
+            errx("%p: access: %s: %m\n", file);
         if (!S_ISDIR(sb.st_mode) && !S_ISREG(sb.st_mode))
             errx("%p: not a regular file or directory: %s\n", file);
 
